@@ -35,3 +35,20 @@ Definition pool_run (cap : nat) (sched : list ptid) (s : pool) : option pool :=
 Definition is_done (x : wst) : bool := match x with WDone => true | _ => false end.
 Definition pool_finished (s : pool) : bool :=
   match todo s, pq s with [], [] => forallb is_done (pws s) | _, _ => false end.
+
+(* ---- handlers that can fail ----
+   util::Worker::operator() catches whatever the handler throws, reports it and calls abort(): the request has been consumed
+   and the whole process ends; it is never dropped with the worker carrying on.  `fails r` = the handler throws on request r.
+   State: the pool and "the process has been aborted" (then nothing steps any more). *)
+Definition pool_step_f (cap : nat) (fails : nat -> bool) (s : pool * bool) (t : ptid) : option (pool * bool) :=
+  if snd s then None else
+  match t with
+  | Wk j => match nth_error (pws (fst s)) j with
+            | Some (WHold r) => if fails r then Some (fst s, true)
+                                else option_map (fun p => (p, false)) (pool_step cap (fst s) t)
+            | _ => option_map (fun p => (p, false)) (pool_step cap (fst s) t)
+            end
+  | Main => option_map (fun p => (p, false)) (pool_step cap (fst s) t)
+  end.
+Definition pool_run_f (cap : nat) (fails : nat -> bool) (sched : list ptid) (s : pool * bool) : option (pool * bool) :=
+  fold_left (fun o t => match o with Some x => pool_step_f cap fails x t | None => None end) sched (Some s).
